@@ -52,6 +52,49 @@ CHECKS = {
             "GHZ/W/Dicke support and symmetry, Werner U(x)U / isotropic U(x)conj(U) invariance and PPT thresholds, list = scalar Werner, Horodecki PPT, product bases, "
             "MUB overlaps, trace-orthogonal operator bases of rank d^2, Weyl relations and Fourier intertwining, gate actions, documented rejections.",
             "real parameters decided on the stated grids only; rejection demanded only where a docstring documents it; float tolerance 1e-9..1e-12"),
+    "C02": ("exploration",
+            "bounded exhaustive enumeration of configurations on the real code vs index-contraction oracle (exact labels)",
+            "Every configuration of partial_trace - dims in {1,2,3}^n n<=3 plus {1,2}^4 (thorough n=4, product<=48), every non-empty subset S in every "
+            "listing order / bare int / omitted, dim as list / every divisor scalar / omitted, six labellings incl. exact multiset labels, cvxpy Variable "
+            "(real, complex, hermitian) - is compared with a loop-level contraction oracle; linearity on all ordered basis pairs, trace preservation, "
+            "Tr_S of prime-filled Kronecker products, composition S then T = union for all ordered splits.",
+            "entry values closed by exact labels + basis enumeration; shapes bounded; sparse inputs and np.int64 scalar arguments not covered"),
+    "C03": ("exploration",
+            "bounded exhaustive enumeration of configurations on the real code vs index-exchange oracle (exact labels)",
+            "Every configuration of partial_transpose (square dims incl. 1, rectangular with independent row/col dims in {2,3}^n n<=3, S as list / ndarray / int / "
+            "omitted, dim flat / 2-row / ndarray / omitted, five labellings, cvxpy Variables) and realignment ((r1,r2,c1,c2) in {2,3,4}^4, all dim forms) is "
+            "compared with an integer index oracle and with prime-filled Kronecker factor oracles; involution, full transpose, complement relation, "
+            "R(A(x)B) = vec(A)vec(B)^T, Frobenius norm; caller's dim / input arrays must be unchanged.",
+            "gathers: verdict per configuration holds for every entry value (checked on formal labels); shapes bounded"),
+    "C04": ("exploration",
+            "basis enumeration over all shapes in the bound + structured/generic Kraus catalogue on the real code vs loop-level reference map",
+            "For all (d_in, d_out) in {1,2,3}^2 (thorough {1..4}^2), independent left/right shapes, all representation forms (flat, nested, row, pairs, Choi), the "
+            "full product basis {E_ab, iE_ab} x {E_cd, iE_cd} x {E_ef} decides every rank-1 map (sesquilinearity), additivity/homogeneity on basis pairs, higher-rank "
+            "families from a structured + seed-derived catalogue; kraus_to_choi = sum E_ij (x) Phi(E_ij); choi_to_kraus re-applied (Hermitian PSD / indefinite / "
+            "non-Hermitian / rectangular, tol cut with margins); chain Kraus->Choi->Kraus->Choi; partial_channel at every position with surrounding dims {1,2,3}; "
+            "natural_representation with row-major vec; channel_dim forms and rejections.",
+            "linear maps: basis enumeration closes the value domain for fixed shapes; shapes bounded (d<=4)"),
+    "C05": ("exploration",
+            "basis enumeration + ground-truth catalogue on the real code vs Hilbert-Schmidt adjoint / Stinespring reference",
+            "<Y,Phi(X)> = <Phi*(Y),X> on the full product basis for flat / pairs / Choi (with dims) forms and all shapes in the bound, dual of dual, unital <=> dual "
+            "trace-preserving on a catalogue containing all four classes, complementary channel entries Tr(K_i rho K_j^dagger), trace preservation and equal non-zero "
+            "spectra on pure inputs for exact isometry families (Fourier / Hadamard / permutation / generic blocks).",
+            "shapes bounded (d<=4, rank<=3); float tolerance 1e-9"),
+    "C06": ("exploration",
+            "exhaustive enumeration of a ground-truth map catalogue x representation x predicate, and of parameter grids of the built-in channels",
+            "468 maps whose status for each predicate is known by construction (unitary conjugations, rational mixtures, Stinespring isometries with d_in != d_out, scaled, "
+            "margin-perturbed, HP / non-HP pairs, transpose, negation, extremal / non-extremal, known Choi ranks) x 11 representation variants x 9 predicates, verdicts "
+            "asserted only on margin cases; built-in channels on parameter grids incl. end points and values just outside: textbook action on every E_ij / iE_ij, "
+            "Kraus = Choi = applied, CPTP / unital flags by independent arithmetic, documented rejections.",
+            "default rtol/atol; margins >= 100x tolerance; dims <= 4 (built-ins <= 5); pairs form not judged for is_extremal (undocumented there)"),
+    "C13": ("exploration",
+            "exhaustive enumeration of all ordered pairs / triples / (pair, unitary) of a finite density catalogue on the real code vs eigh-based definitions",
+            "All ordered pairs of 26..80 states per dimension (d=2,3,4; thorough <=6: projectors on catalogue kets, rational spectra of every rank in computational / "
+            "Fourier / generic bases, seed-derived generic full-rank and rank-deficient states, nearly equal and orthogonal partners) for each function's documented "
+            "formula (evaluated independently through eigh / svd), symmetry, extremes exactly on identical / orthogonal pairs, pure-state closed forms, the "
+            "inequalities 1-F<=T<=sqrt(1-F^2), E<=F^2, M<=F; all triples for the triangle inequality; catalogue unitaries x pairs for invariance; rejection of "
+            "non-density inputs; fidelity_of_separability = 1 on pure product states (k=1,2) and rejections.",
+            "continuous value domain decided on the finite catalogue only (small-scope); tolerance 1e-6 (eigen) / 1e-4 (SDP)"),
 }
 
 PENDING_REASON = "check not built yet in this session (work in progress; see DESIGN.md section 7 for the planned exploration)"
